@@ -2,7 +2,7 @@
    dumped from the live code) against what the implementation returned
    through the public Band API, and the executable specification
    (Band/Rx1Spec.v) evaluated on the observed results. *)
-From Coq Require Import List NArith ZArith Bool.
+From Coq Require Import List NArith ZArith Bool Ascii.
 From Coq Require Export String.
 From LW Require Import Base.Outcome.
 From LW Require Export Band.Types.
@@ -36,6 +36,9 @@ Fixpoint idx_run (mk : Z -> chan_op) (lo : Z) (n : nat) : list chan_op :=
   end.
 Definition disable_run := idx_run OpDisable.
 Definition enable_run := idx_run OpEnable.
+
+(* strings with non-printable / non-ASCII bytes are printed by the harness as byte lists *)
+Definition bs (l : list N) : string := string_of_list_ascii (map Ascii.ascii_of_N l).
 
 Inductive case :=
 (* configuration index <-> identity (keeps harness and dumper enumeration in step);
@@ -121,7 +124,14 @@ Definition check (c : case) : N :=
     code (Bool.eqb (existsb (fun c => String.eqb (c_name c) name) (band_configs ++ band_alias_configs)) ok)
          (Bool.eqb (match region_of name with Some _ => true | None => false end) ok)
   | CRx1Freq i f o =>
-    code (oz_eqb (get_rx1_frequency (cfg_at i) f) o) (negb (is_panic o))
+    (* total on uint32, no panic; where RX1 is sent on the uplink frequency the answer is exactly the
+       argument - also 1 Hz beside a channel, also for a frequency that is no channel at all *)
+    code (oz_eqb (get_rx1_frequency (cfg_at i) f) o)
+         (negb (is_panic o)
+          && match region_of (c_name (cfg_at i)) with
+             | Some reg => rx1_frequency_any_ok reg f o
+             | None => false
+             end)
   | CPing i devaddr beacon o =>
     let cfg := cfg_at i in
     code (oz_eqb (get_ping_slot_frequency cfg devaddr beacon) o)
